@@ -29,7 +29,7 @@ LEVEL_NOTE = ("virtual clock (async_solipsism + time_machine); timer lateness is
               "additions, verdicts use sink-observed timestamps")
 RULE = ("seeded configurations x latency scripts x addition scripts; distinct = canonical case JSON; non-trivial = >=8 "
         "ticks observed and (a latency >= 1 period or a series added while running or a non-aligned creation phase)")
-REQUIRED_BUCKETS = ["period-of-18-hours-or-more", "clock-moves-on-between-readings-while-the-resampler-is-constructed",
+REQUIRED_BUCKETS = ["alignment-point-centuries-back", "period-of-18-hours-or-more", "clock-moves-on-between-readings-while-the-resampler-is-constructed",
                     "align:none", "align:epoch", "align:past-nonmultiple", "align:future", "creation-exactly-aligned",
                     "creation-1us-off", "align_to-in-non-utc-timezone", "align_to-in-daylight-saving-zone", "resampling-function-yields-NaN-for-some-ticks", "latency>=1period", "latency-several-periods", "series-added-between-ticks",
                     "series-added-during-slow-tick", "catch-up-observed", "multi-series", "actor-tier",
@@ -55,8 +55,10 @@ def gen(rng: Any, tier: str, i: int) -> Any:
     if r0 < 0.34:
         return gen_mw(rng)
     period = rng.choice([0.1, 0.2, 1.0, 1.0, 2.5, 60.0, 7.0, 3600.0, 64800.0, 86400.0, 129600.0])  # (up to days)
-    ak = rng.choice(["none", "epoch", "past", "future"])
-    align = {"none": None, "epoch": 0.0, "past": -rng.choice([0.3, 7.123456, 1234.5]) * 1.0,
+    ak = rng.choice(["none", "epoch", "past", "future", "past"])
+    align = {"none": None, "epoch": 0.0,
+             # (also alignment points thousands of years back, such as datetime.min: 6e10 s need 36 bits before the point)
+             "past": -rng.choice([0.3, 7.123456, 1234.5, 63113904000.25, 31556952000.123456, 63838540800.0]) * 1.0,
              "future": rng.choice([1000.0, 86400.0 + 0.25, 3.3])}[ak]
     # creation instant: phases of the grid incl. exactly aligned and 1 us either side
     base = (align or 0.0)
@@ -103,7 +105,9 @@ def gen(rng: Any, tier: str, i: int) -> Any:
         to_change = rng.choice([90, 300]) * 86400 + 3600 + rng.choice([0, 3600])  # seconds from the harness epoch
         start = round(start % period + (int(to_change / period) - rng.randint(3, 8)) * period, 6)
     return {"creeping_clock": rng.random() < 0.3, "nan_every": rng.choice([0, 0, 0, 3, 5]), "align_zone": zone, "align_tz_min": tz_min, "period": period, "align": align, "align_kind": ak, "start_offset": start, "max_age": 3.0, "init_len": 4,
-            "max_len": 16, "ticks": ticks, "series": series, "lat": lat, "drain_periods": maxlat + 3, "phase": phase}
+            "max_len": 16, "ticks": ticks, "series": series, "lat": lat,
+            # (slow ticks can follow one another: the lag to be caught up is at most the sum of the latencies)
+            "drain_periods": max(maxlat, sum(x[2] for x in lat)) + 3, "phase": phase}
 
 
 def _resolve_add_in_tick(case: dict[str, Any]) -> dict[str, Any]:
@@ -450,6 +454,8 @@ def check(case: dict[str, Any], rec: Any) -> None:
     rec.count("runs")
     if p >= 64800.0:
         rec.bucket("period-of-18-hours-or-more")
+    if c["align"] is not None and c["align"] < -1e10:
+        rec.bucket("alignment-point-centuries-back")
     if r.get("clock_readings_during_construction", 0) >= 1:
         rec.bucket("clock-moves-on-between-readings-while-the-resampler-is-constructed")
     created = r["created"]
